@@ -293,6 +293,17 @@ func (s *StateMachine) DeleteValidator(validator *Validator) lib.ErrorI {
 			return err
 		}
 	}
+	// remove the deferred-action markers of the validator so that end-block never meets a marker without a validator
+	if validator.UnstakingHeight != 0 {
+		if err := s.Delete(KeyForUnstaking(validator.UnstakingHeight, addr)); err != nil {
+			return err
+		}
+	}
+	if validator.MaxPausedHeight != 0 {
+		if err := s.Delete(KeyForPaused(validator.MaxPausedHeight, addr)); err != nil {
+			return err
+		}
+	}
 	// delete the validator from state
 	return s.Delete(KeyForValidator(addr))
 }
